@@ -498,7 +498,8 @@ func checkC13(tier, replay string) int {
 		"States that are identical in all files, device content, observation summary and step number are explored once "+
 		"(exact-state memoisation, no abstraction). After every event the real missing-approve is run. "+
 		"A node is non-trivial if at least one conclusive observation (approve OK or compare) lies in its history; distinct = distinct history. "+
-		"Additionally every byte-offset truncation of every distinct status file content seen is checked, and the real do-approve is run against the CLI simulator (ASA, IOS) while the link 'current' is switched to a policy with other code at the schedule points after-lock and before-status-write.", depth, c13Events)
+		"Additionally every byte-offset truncation of every distinct status file content seen is checked, and the real do-approve is run against the CLI simulator (ASA, IOS) while the link 'current' is switched to a policy with other code at the schedule points after-lock and before-status-write. "+
+		"Session tier: all histories of length <= 3 (quick) / 4 (thorough) over %v for an ASA and an IOS device are played as complete do-approve sessions against the CLI simulator backed by the device model (state kept from session to session), the status file being written by do-approve itself; the reference takes a session as successful approve if the device accepted every command and confirmed the save, and decides a compare by its own equivalence of model and target.", depth, c13Events, c13SessionEvents)
 	rep.Assumptions = []string{
 		"do-approve => status.SetApprove(failed) / status.SetCompare(changed||errors), validated by the realistic tier of C09/C12 runs that compare status files written by the real do-approve",
 		"status damage family: deleted, empty, truncated, overwritten with non-JSON bytes; forged valid JSON is outside the claim",
@@ -510,6 +511,18 @@ func checkC13(tier, replay string) int {
 		data, err := os.ReadFile(filepath.Join(replay, "history.json"))
 		if err != nil {
 			run.Fatal("replay: %v", err)
+		}
+		var sess struct {
+			Tier    string   `json:"tier"`
+			Type    string   `json:"type"`
+			History []string `json:"history"`
+		}
+		if json.Unmarshal(data, &sess) == nil && sess.Tier == "sessions" {
+			// A history of complete do-approve sessions.
+			for k := range sess.History {
+				c13RunSessions(env, rep, sess.Type, append(append([]string{}, sess.History[:k+1]...)))
+			}
+			return rep.FinishReplay()
 		}
 		var h []string
 		json.Unmarshal(data, &h)
@@ -643,6 +656,8 @@ func checkC13(tier, replay string) int {
 	})
 	// Interleavings of a real do-approve with a policy switch.
 	c13Interleavings(env, rep)
+	// Histories of complete do-approve sessions against a stateful device.
+	c13Sessions(env, rep, tier)
 	// Truncation of every distinct status content at every byte offset.
 	var stKeys []string
 	for k := range statusSeen {
